@@ -235,6 +235,20 @@ def isinstance_shim(obj, cls):
     return _isinstance(obj, cls)
 
 
+def round_shim(x, ndigits=None):
+    """round() used to MERGE nearly equal elevations in sets/dicts (armi: round(z, 8)): a proxy is returned in the
+    normal form of its term, so that structurally different but equal terms hash alike; plain numbers are rounded."""
+    if _isinstance(x, Sym):
+        import z3
+
+        e = z3.simplify(x.e)
+        if z3.is_rational_value(e) or z3.is_int_value(e):
+            f = e.as_fraction()
+            return _round(_float(f), ndigits) if ndigits is not None else _round(_float(f))
+        return Sym(e)
+    return _round(x, ndigits) if ndigits is not None else _round(x)
+
+
 _applied = []
 
 
